@@ -42,7 +42,9 @@ SCRATCH = "/work/c10_scratch"
 
 NAMES = ["disk-s001.vmdk", "disk-flat.vmdk", "disk with spaces.vmdk", "a b  c.vmdk", "this is an example \"' diskëäô:)\\'`foo.vmdk",
          "🦊 🦊 🦊.vmdk", "inner\"quote.vmdk", "tab\there.vmdk", "x", "ünï cödé-f002.vmdk", "café 中文.vmdk",
-         "semi;colon=equals.vmdk", "#hash.vmdk", "RW 5 FLAT.vmdk", "quote\" 12 tail.vmdk"]
+         "semi;colon=equals.vmdk", "#hash.vmdk", "RW 5 FLAT.vmdk", "quote\" 12 tail.vmdk",
+         # characters that str.splitlines() treats as line boundaries but split("\n") does not
+         "line\u2028sep a b.vmdk", "nel\x85 x y z.vmdk", "vt\x0bff\x0c a b.vmdk", "fs\x1cgs\x1d b c.vmdk", "ps\u2029 one two.vmdk"]
 TYPES_DATA = ["FLAT", "VMFS", "SPARSE", "VMFSSPARSE", "SESPARSE"]
 
 
